@@ -37,18 +37,23 @@ def run(prop, tier, seed):
     with open(gpath, "w") as f:
         json.dump({"edges": edges, "sibdepth": sibdepth}, f)
     out = json.loads(common.run_bin("fs", ["paths", gpath, t["L"], t["Lops"]], timeout=14400))
+    common.sweep_jails()
     c.coverage = {
         "states": r.distinct, "transitions": r.generated,
         "traces_validated_against_impl": out["names"],
         "samples": out["samples"],
         "names_walked": out["names"], "native_path_calls": out["native_path_calls"], "filestore_operations": out["operations"],
+        "harness_confined_by_chroot": out["confined_by_chroot"],
+        "names_not_acted_on_because_they_resolve_outside_the_watched_area": out["names_not_acted_on_because_they_resolve_outside_the_watched_area"],
         "drift": out["drift"][:10], "exhaustive": True, "constants": dict(t, SibDepth=sibdepth),
         "tlc_invariants": ["Contained", "DepthBound"],
         "rule": "every name = start in {relative, absolute, root-prefixed, sibling-prefixed} x every sequence of <= L components over {a, b, '.', '..', ''}, "
                 "each in 1-2 spellings, through get_native_path and 14 groups of filestore operations (create, delete, rename both ways, append both ways, "
                 "replace both ways, mkdir, rmdir, open, list, and every request action through process_request) in a jail with sentinels outside the root",
     }
-    c.assumptions = ["POSIX filesystem without symlinks inside the jail", "containment judged on the lexically normalised native path and on a snapshot of everything outside the root"]
+    c.assumptions = ["the harness process chroots into a scratch directory before it touches the filestore (every escape, relative or absolute, lands in the watched "
+                     "area); without that privilege, names whose native path leaves the scratch area are reported but not acted on",
+                     "POSIX filesystem without symlinks inside the jail", "containment judged on the lexically normalised native path and on a snapshot of everything outside the root"]
     seen = set()
     for v in out["violations"]:
         k = (v["what"], v.get("op"))
